@@ -407,6 +407,22 @@ def _check_sub_context(ctx, m, sc):
     ctx.decide('P3', ok_upd, m, upd[0] if upd else sc, 'new values applied over the copied fields',
                'the given field values are not applied to the copied fields',
                construct='sub_context: attrs.update')
+    # nothing else writes the field dictionaries: only the keys the caller passed change
+    extra = []
+    for n in ast.walk(sc):
+        if isinstance(n, ast.Subscript) and isinstance(n.ctx, (ast.Store, ast.Del)) and \
+                isinstance(n.value, ast.Name) and n.value.id in (attrs, rec_name, kwname):
+            extra.append(n)
+        if isinstance(n, ast.Call) and call_name(n) in ('update', 'pop', 'setdefault', 'clear', 'popitem') \
+                and isinstance(call_recv(n), ast.Name) and call_recv(n).id in (attrs, rec_name, kwname) \
+                and not (upd and n is upd[0].value):
+            extra.append(n)
+    ctx.decide('P3', not extra, m, extra[0] if extra else sc,
+               'the copied fields are changed by the caller\'s keys only',
+               'sub_context writes %s on its own: a field the caller did not pass is changed (or a '
+               'passed one dropped), so the derived state differs from a fresh state built with the '
+               'same values' % [short(enclosing_stmt(x) or x, 70) for x in extra][:2],
+               construct='sub_context: no further writes to the field dictionaries')
     # constructor call
     ctor = None
     for n in ast.walk(sc):
